@@ -197,6 +197,9 @@ pub fn run_case(image: Vec<u8>, seed: u64, given: Option<Vec<String>>, max_ops: 
             };
             p2.lock().unwrap().push(line.clone());
             let r = real.exec(&line);
+            if given.is_some() {
+                println!("STEP {} => {} | {} | {}", crate::apigen::short(&line), crate::apigen::short(&r), real.handle_states(), catch(|| real.dirtable()).unwrap_or_default());
+            }
             if r == "panic" {
                 let _ = tx.send(CaseResult::Panic { history: p2.lock().unwrap().clone(), message: real.last_panic.take().unwrap_or_default() });
                 return;
